@@ -89,6 +89,27 @@ def correlation(x, y):
     return 1.0 - dp / math.sqrt(nx * ny)
 
 
+
+def average_ranks(a):
+    """ranks 1..n, tied values share the mean of the positions they occupy (the 'average' method)"""
+    a = [float(v) for v in a]
+    order = sorted(range(len(a)), key=lambda i: a[i])
+    ranks = [0.0] * len(a)
+    i = 0
+    while i < len(order):
+        j = i
+        while j + 1 < len(order) and a[order[j + 1]] == a[order[i]]:
+            j += 1
+        for k in range(i, j + 1):
+            ranks[order[k]] = 0.5 * (i + j) + 1.0
+        i = j + 1
+    return np.array(ranks, dtype=np.float64)
+
+
+def spearmanr(x, y):
+    """1 - Spearman's rho: the correlation distance of the average ranks"""
+    return correlation(average_ranks(np.asarray(x, dtype=np.float32)), average_ranks(np.asarray(y, dtype=np.float32)))
+
 def haversine(x, y):
     x, y = _f(x), _f(y)
     a = math.sin(0.5 * (x[0] - y[0])) ** 2 + math.cos(x[0]) * math.cos(y[0]) * math.sin(0.5 * (x[1] - y[1])) ** 2
